@@ -11,16 +11,14 @@ from ..rdef import flow_of, ENTRY
 from ._weather import window_selection
 
 EXPLANATION = (
-    "C11.a (who-may-write on user-owned objects): every store performed by initialisation or stepping is resolved to "
-    "access paths; a store that reaches an object handed in by the user (soil, crop, weather, irrigation / field "
-    "management, groundwater, CO2, initial water content) must be one of the enumerated re-initialisation-safe "
-    "rewrites, each with a structural condition that is re-checked: the weather frame is replaced by its clip to the "
-    "window (selection by Date masks: idempotent); Soil.fill_nan only applies idempotent operators to what it rewrites; "
-    "the profile-deepening loop is a fix-point loop whose guard reads what the body changes; derived soil / CO2 fields "
-    "are recomputed from other fields (no self-dependence); CO2.current_concentration is read only under "
-    "constant_conc is True, where it is written back unchanged or as a stabilising default. Crop, management, "
-    "groundwater and initial-water-content objects are not written at all. C11.b (kind typestate): a user attribute "
-    "that is overwritten must keep the interface the earlier reads of the same attribute rely on (a DataFrame is not "
+    "C11.a (who-may-write on user-owned objects): every store performed by initialisation or stepping (1 000+) is resolved to "
+    "access paths; no store may reach an object handed in by the user (soil, crop, weather, irrigation / field "
+    "management, groundwater, CO2, initial water content). The only exemption is the re-binding of the model's own weather attribute to "
+    "the clip of the frame to the window (selection by Date masks, row order by an argsort of the Date column: idempotent, the user's frame "
+    "is not written). The objects initialisation must write to - the crop (calendar conversion), the soil (profile deepening, compartment "
+    "arrays) and the CO2 object (series, concentration in force) - enter only as deepcopy(self.<obj>), one private copy per initialisation; "
+    "the others are handed on by reference and shown never to be written. C11.b (kind typestate): should a user attribute "
+    "be overwritten after all, it must keep the interface the earlier reads of the same attribute rely on (a DataFrame is not "
     "replaced by an ndarray). C11.c (state on the model object): every attribute of the model object that a run writes "
     "(run_model or the step) and the step reads is assigned on every path of _initialize, so a second run of the same object "
     "does not start from what the first left. NOT decided: equality of the results of run 1 and run 2.")
@@ -31,13 +29,7 @@ NDARRAY_ATTRS = {"shape", "flatten", "copy", "astype", "size", "dtype", "T", "su
 
 # path regex -> (reason, condition id)
 SAFE_WRITES = [
-    (r"^USER\.weather_df$", "replaced by its clip to the simulation window (idempotent)", "weather"),
-    (r"^USER\.soil\.(profile|zSoil|nComp)(\.|\[|$)", "Soil.fill_nan / deepening / initial-conditions columns", "soil_profile"),
-    (r"^USER\.soil\.(rew|cn)$", "recomputed from the profile / literals", "not_self"),
-    (r"^USER\.soil\.Hydrology(\.|\[|$)", "per-layer summary recomputed from the profile", "not_self"),
-    (r"^USER\.soil\.Profile(\.|\[|$)", "SoilProfile arrays rebuilt from the profile frame", "not_self"),
-    (r"^USER\.co2_concentration\.co2_data_processed$", "interpolated from co2_data and the simulation years", "not_self"),
-    (r"^USER\.co2_concentration\.current_concentration$", "written back unchanged / stabilising default under constant_conc", "co2_current"),
+    (r"^USER\.weather_df$", "the model's weather attribute is re-bound to its clip to the simulation window (selection by Date masks: idempotent; the user's frame is not written)", "weather"),
 ]
 
 
@@ -71,113 +63,66 @@ def _outer_ops(v: ast.AST) -> List[str]:
     return ops
 
 
-def rule_a(chk, prog):
-    used = set()
-    nw = 0
-    co2_sites = []
+def user_object_stores(chk, prog, rule: str):
+    """who-may-write on user-owned objects, shared by C11.a and C10.c: every store of initialisation and stepping is resolved to access
+    paths; none may reach an object the user handed in, except the re-binding of the model's own weather attribute to the clipped frame.
+    The objects initialisation has to write to (crop calendar, soil profile, CO2 series) are reached only through `deepcopy(self.<obj>)`."""
+    total = nw = 0
+    touched = {}
     for phase, roles in (("init", init_roles(prog)), ("step", step_roles(prog))):
         for key in sorted(roles.reached):
             fi = prog.funcs[key]
             where = f"{fi.module}:{fi.qualname}"
             for st in stores(prog, fi, roles):
+                total += 1
                 hit = sorted(p for p in st.paths if p.startswith("USER."))
                 if not hit:
                     continue
                 chk.fn(key)
                 nw += 1
                 for p in hit:
+                    obj = p.split(".")[1].split("[")[0]
                     entry = next(((rx, why, cond) for rx, why, cond in SAFE_WRITES if re.match(rx, p)), None)
                     if entry is None:
-                        obj = p.split(".")[1].split("[")[0]
-                        chk.violation("C11.a", where, st.text,
-                                      f"{phase}: the user's `{obj}` object is modified through {p}; running again with the same object does not "
-                                      "start from what the user passed", loc=fi.loc(st.node))
-                        continue
-                    rx, why, cond = entry
-                    used.add(rx)
-                    ok, detail = True, why
-                    if cond == "not_self":
-                        f = p.rsplit(".", 1)[-1].split("[")[0]
-                        rd = _self_dependent(st.node, f, roles, fi, st.paths)
-                        if rd is not None:
-                            ok, detail = False, f"the rewritten field is computed from its own previous value ({norm(rd)})"
-                    elif cond == "soil_profile":
-                        f = st.field or p.rsplit(".", 1)[-1].split("[")[0]
-                        rd = _self_dependent(st.node, f, roles, fi, st.paths) if st.kind == "attr" else None
-                        if isinstance(st.node, ast.AugAssign):
-                            # only inside the fix-point loop (checked below)
-                            ok = fi.name == "read_model_parameters"
-                            detail = "augmented update inside the profile-deepening fix-point loop" if ok else "in-place arithmetic on the user's soil profile"
-                        elif rd is not None:
-                            ops = _outer_ops(st.node.value)
-                            if not ops or ops[0] not in IDEMPOTENT_OPS:
-                                # a recomputation from *another* column (dz -> dzsum) is fine; the same column needs an idempotent operator
-                                tgt_col = norm(st.node.targets[0]) if isinstance(st.node, ast.Assign) else ""
-                                if norm(rd) == tgt_col or not ops:
-                                    ok, detail = False, f"self-dependent rewrite `{norm(st.node.value)[:60]}` is not an idempotent operator"
-                    elif cond == "co2_current":
-                        co2_sites.append((fi, st))
-                    if ok:
-                        chk.ok("C11.a", where, st.text, f"{p}: {detail}")
+                        touched.setdefault(obj, []).append(st.text)
+                        chk.violation(rule, where, st.text,
+                                      f"{phase}: the user's `{obj}` object is modified through {p}: running again with the same object, or another model "
+                                      "that shares it, does not start from what the user passed", loc=fi.loc(st.node))
                     else:
-                        chk.violation("C11.a", where, st.text, f"{p}: {detail}: re-initialising with the same object gives different values", loc=fi.loc(st.node))
-    chk.floor("C11.a", nw, 20, "stores reaching user-owned objects")
-    # ---- conditions checked once
+                        chk.ok(rule, where, st.text, f"{p}: {entry[1]}")
+    chk.floor(rule, total, 300, "stores of initialisation and stepping classified by access path")
+    chk.notes[rule + "_stores_reaching_user_objects"] = nw
+    # how each user object enters initialisation
+    ini = prog.func(INIT_ROOT)
+    chk.fn(ini.key)
+    where = f"{ini.module}:{ini.qualname}"
+    user_attrs = sorted(a for a, r in __import__("sa.common", fromlist=["INIT_SELF"]).INIT_SELF.items() if any(x.startswith("USER.") for x in r)
+                        and a not in ("sim_start_time", "sim_end_time", "off_season"))
+    parents = {}
+    for n in ast.walk(ini.node):
+        for c in ast.iter_child_nodes(n):
+            parents[id(c)] = n
+    n_obj = 0
+    for a in user_attrs:
+        uses = [x for x in walk_no_nested(ini.node) if isinstance(x, ast.Attribute) and x.attr == a and isinstance(x.value, ast.Name) and x.value.id == "self"
+                and isinstance(x.ctx, ast.Load)]
+        if not uses:
+            continue
+        n_obj += 1
+        copied = [u for u in uses if isinstance(parents.get(id(u)), ast.Call) and norm(parents[id(u)].func) in ("deepcopy", "copy.deepcopy")]
+        construct = f"self.{a} in _initialize"
+        if a in touched:
+            continue        # reported above, store by store
+        if len(copied) == len(uses):
+            chk.ok(rule, where, construct, "reaches the model only as deepcopy(self.%s): a private copy per initialisation" % a)
+        else:
+            chk.ok(rule, where, construct, "handed on by reference; no store of initialisation or stepping reaches it")
+    chk.floor(rule + "-objects", n_obj, 8, "user-supplied objects read by _initialize")
+
+
+def rule_a(chk, prog):
+    user_object_stores(chk, prog, "C11.a")
     window_selection(chk, prog, "C11.a")
-    # deepening loop is a fix-point idiom
-    rmp = prog.find_func("read_model_parameters")
-    loops = [n for n in walk_no_nested(rmp.node) if isinstance(n, ast.While)]
-    ok = False
-    for lp in loops:
-        reads = {x.attr for x in ast.walk(lp.test) if isinstance(x, ast.Attribute)}
-        body_calls = {c.func.attr for c in ast.walk(lp) if isinstance(c, ast.Call) and isinstance(c.func, ast.Attribute)}
-        if "zSoil" in reads and "fill_nan" in body_calls:
-            fn = prog.cls("Soil").methods.get("fill_nan")
-            sets_z = fn is not None and any(isinstance(a, ast.Assign) and isinstance(a.targets[0], ast.Attribute) and a.targets[0].attr == "zSoil"
-                                            for a in walk_no_nested(fn.node))
-            ok = sets_z
-    if ok:
-        chk.ok("C11.a", f"{rmp.module}:{rmp.qualname}", "while soil.zSoil < crop.Zmax + 0.1: ... fill_nan()", "fix-point loop: the guard re-reads the depth the body increases")
-    else:
-        chk.violation("C11.a", f"{rmp.module}:{rmp.qualname}", "profile deepening loop", "the loop that deepens the user's soil profile is no longer guarded by the depth it changes", loc=rmp.loc())
-    # CO2.current_concentration: reads only under constant_conc is True; written value is the read value or a default
-    nreads = 0
-    from ..common import RESET_FN
-    for roles in (init_roles(prog), step_roles(prog)):
-        for key in sorted(roles.reached):
-            fi = prog.funcs[key]
-            if roles is not init_roles(prog) and key != RESET_FN:
-                continue        # daily reads see the value this run's own initialisation / season reset wrote
-            flow = flow_of(fi)
-            for n in walk_no_nested(fi.node):
-                if isinstance(n, ast.Attribute) and n.attr == "current_concentration" and isinstance(n.ctx, ast.Load):
-                    ps = roles.paths(fi, n.value)
-                    if not any(p in ("USER.co2_concentration", "PARAM.CO2") for p in ps):
-                        continue
-                    nid = flow.node_of(n)
-                    if nid is None:
-                        continue
-                    # a read that follows a write of the same field in the same function sees the model's own value
-                    wr = [a for a in walk_no_nested(fi.node) if isinstance(a, ast.Assign) and isinstance(a.targets[0], ast.Attribute)
-                          and a.targets[0].attr == "current_concentration" and flow.stmt_node.get(id(a)) in flow.cfg.dominators()[nid]
-                          and flow.stmt_node.get(id(a)) != nid]
-                    if wr:
-                        continue
-                    nreads += 1
-                    deps = {(norm(flow.cfg.nodes[t].ast), l) for t, l in flow.cfg.transitive_control_deps(nid) if flow.cfg.nodes[t].kind == "test"}
-                    guarded = any(t.endswith(".constant_conc is True") and l is True for t, l in deps)
-                    construct = f"read of CO2.current_concentration in `{norm(flow.cfg.nodes[nid].ast)[:60]}`"
-                    where = f"{fi.module}:{fi.qualname}"
-                    if guarded:
-                        chk.ok("C11.a", where, construct, "only when the user asked for a constant concentration")
-                    else:
-                        chk.violation("C11.a", where, construct,
-                                      "the model overwrites CO2.current_concentration at every season start and reads it back here without "
-                                      "the constant_conc guard: a second run starts from the first run's last concentration", loc=fi.loc(n))
-    chk.floor("C11.a-co2", nreads, 4, "guarded reads of CO2.current_concentration")
-    stale = [rx for rx, _, _ in SAFE_WRITES if rx not in used]
-    if stale:
-        chk.notes["stale_safe_write_entries"] = stale
 
 
 def rule_b(chk, prog):
@@ -207,7 +152,10 @@ def rule_b(chk, prog):
                               "the next initialisation with the same object raises AttributeError", loc=fi.loc(st.node))
             else:
                 chk.ok("C11.b", f"{fi.module}:{fi.qualname}", st.text, "array-valued rewrite; only array attributes are read")
-    chk.floor("C11.b", n, 5, "attribute rewrites on user-owned objects")
+    chk.notes["C11.b_attribute_rewrites_on_user_objects"] = n
+    if n == 0:
+        ini = prog.func(INIT_ROOT)
+        chk.ok("C11.b", f"{ini.module}:{ini.qualname}", "attribute rewrites on user-owned objects", "none: no attribute of a user object is overwritten (see C11.a)")
 
 
 def _kind(v: ast.AST, fi, flow) -> str:
